@@ -17,10 +17,16 @@ import (
 	"verif/engine/sym"
 )
 
-const (
-	verifDir = "/verif"
-	repoDir  = "/repo"
-)
+const verifDir = "/verif"
+
+// repoDir is /repo; VERIF_REPO points the checks at a scratch worktree (used
+// only to try seeded changes without touching /repo).
+var repoDir = func() string {
+	if d := os.Getenv("VERIF_REPO"); d != "" {
+		return d
+	}
+	return "/repo"
+}()
 
 // TierOpt: options of one harness run in one tier.
 type TierOpt struct {
@@ -464,7 +470,18 @@ func nativeReplay(r Run, replayPath string, p *sym.Program) (bool, string) {
 	ovb, _ := json.Marshal(map[string]interface{}{"Replace": ov})
 	ovPath := filepath.Join(tmp, "overlay.json")
 	os.WriteFile(ovPath, ovb, 0o644)
-	cmd := exec.Command("go", "test", "-tags", "verif", "-vet=off", "-count=1", "-timeout", "300s", "-run", "^TestVerifReplay$", "-overlay", ovPath, "-v", ".")
+	var kindDoc struct{ Kind string }
+	if b, err := os.ReadFile(replayPath); err == nil {
+		json.Unmarshal(b, &kindDoc)
+	}
+	goArgs := []string{"test", "-tags", "verif", "-vet=off", "-count=1", "-timeout", "300s", "-run", "^TestVerifReplay$", "-overlay", ovPath, "-v"}
+	if kindDoc.Kind == "race" {
+		// data races are confirmed by the native race detector (a few repetitions:
+		// it only sees the interleavings that actually happen)
+		goArgs = append(goArgs, "-race", "-count=5")
+	}
+	goArgs = append(goArgs, ".")
+	cmd := exec.Command("go", goArgs...)
 	cmd.Dir = filepath.Join(repoDir, r.Pkg)
 	cmd.Env = append(os.Environ(), "GOFLAGS=-mod=mod", "GOPROXY=off", "VERIF_MODEL="+replayPath, "VERIF_HARNESS="+r.Harness)
 	if r.Synctest {
@@ -482,7 +499,9 @@ func nativeReplay(r Run, replayPath string, p *sym.Program) (bool, string) {
 		// the failed assertion itself, or a genuine native crash on the same input
 		crash := (strings.Contains(s, "\npanic: ") || strings.Contains(s, "fatal error:") || strings.Contains(s, "REPLAY-PANIC")) &&
 			!strings.Contains(s, "all goroutines in bubble are blocked")
-		rep = strings.Contains(s, "REPLAY-FAIL: "+doc.Msg) || crash
+		// the same assertion, or - for harnesses whose native schedule/timing can
+		// differ from the engine's - any assertion of the harness on this input
+		rep = strings.Contains(s, "REPLAY-FAIL: "+doc.Msg) || crash || (r.Synctest && strings.Contains(s, "REPLAY-FAIL: "))
 	case "deadlock":
 		rep = strings.Contains(s, "deadlock") || strings.Contains(s, "REPLAY-FAIL") || strings.Contains(s, "test timed out")
 	default:
